@@ -34,6 +34,7 @@ type vf12Fault struct {
 	get   *vlib.GetFault
 	cont  *vlib.ContainsFault
 	ctxCancel bool
+	oversizeBy int64 // >0: configure max_proxy_blob_size = logical size - oversizeBy
 }
 
 func vf12Faults(stored []byte, logical int64, maxProxy int64, thorough bool) []vf12Fault {
@@ -49,6 +50,10 @@ func vf12Faults(stored []byte, logical int64, maxProxy int64, thorough bool) []v
 		{name: "size-zero", class: "size-metadata", get: &vlib.GetFault{SizeAnswer: i64(0), CutAt: -1}},
 		{name: "size-over-max-proxy-blob-size", class: "size-metadata", get: &vlib.GetFault{SizeAnswer: i64(maxProxy + 1), CutAt: -1}},
 		{name: "one-byte-reads", class: "none", get: &vlib.GetFault{CutAt: -1, ChunkSize: 1}},
+		// the object really is larger than max_proxy_blob_size (the cache is configured with a limit
+		// one byte / half below its size): never served, never cached
+		{name: "oversize-object-limit=size-1", class: "oversize", oversizeBy: 1},
+		{name: "oversize-object-limit=size/2", class: "oversize", oversizeBy: logical - logical/2},
 		{name: "context-cancelled-before", class: "cancel", ctxCancel: true},
 	}
 	for k := 0; k < len(stored); k++ {
@@ -177,6 +182,9 @@ func vf12Cell(rep *vlib.Report, dir, mode string, o vf12Obj, known, zstd bool, f
 	rep.Eval()
 	classes[f1.class]++
 	vfCleanHot(dir)
+	if f1.oversizeBy > 0 {
+		maxProxy = int64(len(o.logical)) - f1.oversizeBy
+	}
 	px := vlib.NewFakeProxy()
 	cc, err := New(dir, 1<<20, WithStorageMode(mode), WithAccessLogger(vlib.SilentLogger()), WithProxyBackend(px), WithProxyMaxBlobSize(maxProxy))
 	if err != nil {
@@ -223,6 +231,26 @@ func vf12Cell(rep *vlib.Report, dir, mode string, o vf12Obj, known, zstd bool, f
 	r1 := vf12Read(cc, o, size, zstd, f1.ctxCancel)
 	delete(px.GetFault, key)
 	ok := check("first", r1, f1.class != "none")
+	if f1.class == "oversize" {
+		// any hit is wrong here, and nothing may have been cached
+		delete(px.Objects, key)
+		r3 := vf12Read(cc, o, -1, false, false)
+		VfDrain(cc)
+		st := VfSnapshot(cc)
+		if r1.class == "hit" || r1.class == "readerr" || r3.class == "hit" || len(st.Entries) != 0 {
+			rep.Violate(cls+" object larger than max_proxy_blob_size served or cached", fmt.Sprintf("%s: max_proxy_blob_size=%d object=%d bytes: read=%s, local-only read afterwards=%s, entries cached=%d", id, maxProxy, len(o.logical), r1.class, r3.class, len(st.Entries)), replay)
+			return
+		}
+		for _, p := range VfAccounting(st, 0) {
+			rep.Violate(cls+" accounting "+vfGeneric(p), fmt.Sprintf("%s: %s", id, p), replay)
+		}
+		if opened, closed, _, _ := px.Snapshot(); opened != closed {
+			rep.Violate(cls+" backend stream not closed", fmt.Sprintf("%s: %d backend streams opened, %d closed", id, opened, closed), replay)
+		}
+		rep.Nontrivial(id)
+		rep.Outcome(fmt.Sprintf("%s/%s first=%s local=%s", o.kind, f1.class, r1.class, r3.class))
+		return
+	}
 	if f1.class == "none" && r1.class != "hit" {
 		rep.Violate(cls+" faithful backend not read through", fmt.Sprintf("%s: backend holds the entry and answers correctly but the read gives %s (%v)", id, r1.class, r1.err), replay)
 		ok = false
